@@ -27,6 +27,13 @@ bool FileInfo::isDirectory() const {
   return (mode & S_IFDIR) != 0;
 }
 
+bool FileInfo::hasSameType(const FileInfo& rhs) const {
+#if defined(_WIN32) && !defined(S_IFMT)
+#define S_IFMT _S_IFMT
+#endif
+  return (mode & S_IFMT) == (rhs.mode & S_IFMT);
+}
+
 /// Get the information to represent the state of the given node in the file
 /// system.
 FileInfo FileInfo::getInfoForPath(const std::string& path, bool asLink) {
